@@ -25,6 +25,10 @@ func (c08) Gen(rng *rand.Rand, tier string, idx int) Case {
 		genSQLWindow(rng, &c, slide, o)
 		return c
 	}
+	if idx%12 == 10 {
+		// IDLETIMEOUT: idle and busy ticker updates between the rows (forced, natural, live timestamps)
+		return idleCase(rng, "sliding")
+	}
 	// (size, slide): slide | size, slide ∤ size, slide = size, slide > size
 	pairs := [][2]int64{{2, 1}, {3, 2}, {5, 5}, {2, 3}, {7, 3}, {10, 5}, {4, 1}, {14, 7}, {13, 7}, {11, 11}} // 7, 11: slides that do not divide a day (nor the distance between Go's zero time and the epoch)
 	p := pairs[rng.Intn(len(pairs))]
@@ -33,8 +37,16 @@ func (c08) Gen(rng *rand.Rand, tier string, idx int) Case {
 	size, slide := p[0]*u, p[1]*u
 	oooChoices := []int64{0, slide / 2, slide, size, 2*size + 1}
 	ooo := oooChoices[rng.Intn(len(oooChoices))]
-	c.Cfg = [][]string{{"kind", "sliding"}, {"mode", "et"}, {"size", itoa(size)}, {"slide", itoa(slide)}, {"ooo", itoa(ooo)}, {"late", "0"}, {"now", "0"}}
-	genWindowOps(rng, &c, slide, ooo, false, nil)
+	if idx%4 == 1 {
+		// ALLOWEDLATENESS > 0: a late row folded into a fired interval still belongs to the pending intervals that cover it
+		late := []int64{1, slide, size, 3 * size}[rng.Intn(4)]
+		c.Cfg = [][]string{{"kind", "sliding"}, {"mode", "et"}, {"size", itoa(size)}, {"slide", itoa(slide)}, {"ooo", itoa(ooo)}, {"late", itoa(late)}, {"now", "0"}}
+		genLateOps(rng, &c, slide, ooo, late)
+		c.Stat = append(c.Stat, "lateness>0")
+	} else {
+		c.Cfg = [][]string{{"kind", "sliding"}, {"mode", "et"}, {"size", itoa(size)}, {"slide", itoa(slide)}, {"ooo", itoa(ooo)}, {"late", "0"}, {"now", "0"}}
+		genWindowOps(rng, &c, slide, ooo, false, nil)
+	}
 	bigEpoch(rng, &c)
 	switch {
 	case slide == size:
